@@ -98,6 +98,13 @@ def commutesWith (atol rtol : Rat) (a b : MOp) : Bool :=
   | [(ta, _)], [(tb, _)] => majoranaTermsCommute ta tb
   | _, _ => majEq atol rtol (mmul a b) (mmul b a)
 
+/-- exact-regime test for two Majorana dictionaries (evaluated by the driver per input): whenever
+numpy.isclose (either way; `|x| ≤ atol` for one-sided terms) calls the two coefficients of a term
+close, they are equal -/
+def majExactB (atol rtol : Rat) (X Y : MOp) : Bool :=
+  (Dict.keys X ++ Dict.keys Y).all fun t =>
+    !(majTermClose atol rtol X Y t) || decide (Dict.getD X t 0 = Dict.getD Y t 0)
+
 /-! ### structural predicates (nested loops as coded) -/
 
 /-- the two tests of `FermionOperator.is_normal_ordered` on the adjacent pair
